@@ -147,7 +147,27 @@ func runOnce(c Case) outcome {
 			s.CloseConn(r.Conn)
 		}
 	}
-	e.sp = tars.NewServantProxy(cm, fmt.Sprintf("Verif.C11.Obj%d@tcp -h 127.0.0.1 -p %d -t 60000", atomic.AddInt64(&objSeq, 1), srv.Port))
+	objName := fmt.Sprintf("Verif.C11.Obj%d", atomic.AddInt64(&objSeq, 1))
+	e.sp = tars.NewServantProxy(cm, fmt.Sprintf("%s@tcp -h 127.0.0.1 -p %d -t 60000", objName, srv.Port))
+	// adapters outlive their case (keep-alive ticker of push clients, 30 s probes of blocked
+	// endpoints): close them, or they reach a later case's server through a reused port
+	defer func() {
+		for _, a := range e.sp.VerifAdapters() {
+			a.Close()
+		}
+	}()
+	// connections of this case's proxy = connections that carried a request for its servant
+	// name (a stray connection of a leftover adapter of another case or process carries none)
+	countAccepted := func([]peer.ConnEvent) int {
+		reqs, _, _ := srv.Snapshot()
+		seen := map[int]bool{}
+		for _, r := range reqs {
+			if r.Servant == objName {
+				seen[r.Conn] = true
+			}
+		}
+		return len(seen)
+	}
 	if c.PushCallback {
 		e.sp.SetPushCallback(func([]byte) {})
 	}
@@ -325,16 +345,6 @@ func history(srv *peer.Server, t0 time.Time) string {
 		fmt.Fprintf(&b, "[%+dms conn %d %s id %d] ", r.At.Sub(t0).Milliseconds(), r.Conn, r.Func, r.ID)
 	}
 	return b.String()
-}
-
-func countAccepted(ev []peer.ConnEvent) int {
-	n := 0
-	for _, e := range ev {
-		if e.What == "accepted" {
-			n++
-		}
-	}
-	return n
 }
 
 func run(c Case) *stat.Failure {
